@@ -25,6 +25,26 @@ func (w wseq) norm() wseq {
 	return out
 }
 
+// sameTotals: equal sum of fixed bytes and equal number of variable parts (used when a parser
+// advances its cursor with one combined increment per record, which hides the field order).
+func (w wseq) sameTotals(o wseq) bool {
+	tot := func(x wseq) (int64, int) {
+		var f int64
+		v := 0
+		for _, t := range x {
+			if t == 0 {
+				v++
+			} else {
+				f += t
+			}
+		}
+		return f, v
+	}
+	af, av := tot(w)
+	bf, bv := tot(o)
+	return af == bf && av == bv
+}
+
 func (w wseq) String() string {
 	var parts []string
 	for _, t := range w {
@@ -49,11 +69,21 @@ func fixedWidth(sizes types.Sizes, t types.Type) int64 {
 
 // serializerSeq: widths appended to a buffer inside node, in source order.
 func serializerSeq(s *Scope, node ast.Node) wseq {
+	return serializerSeqDepth(s, node, 0)
+}
+
+func serializerSeqDepth(s *Scope, node ast.Node, depth int) wseq {
 	var out wseq
 	sizes := s.Pkg.TypesSizes
 	type ev struct {
 		pos token.Pos
-		w   int64
+		ws  wseq
+	}
+	helpers := map[*Func]bool{}
+	if s.Anchor && s.Fn != nil {
+		for _, h := range s.P.privateHelpers(s.Fn) {
+			helpers[h] = true
+		}
 	}
 	var evs []ev
 	walkAll(node, func(n ast.Node) bool {
@@ -64,18 +94,25 @@ func serializerSeq(s *Scope, node ast.Node) wseq {
 		switch CalleeName(s.Info, call) {
 		case "utils/io.Serialize":
 			if len(call.Args) == 2 {
-				evs = append(evs, ev{call.Pos(), fixedWidth(sizes, s.Info.TypeOf(call.Args[1]))})
+				evs = append(evs, ev{call.Pos(), wseq{fixedWidth(sizes, s.Info.TypeOf(call.Args[1]))}})
 			}
 		case "builtin.append":
 			if call.Ellipsis.IsValid() {
-				evs = append(evs, ev{call.Pos(), 0})
+				evs = append(evs, ev{call.Pos(), wseq{0}})
+			}
+		default:
+			// an encoding step that was extracted into a helper contributes its own sequence
+			if f := Callee(s.Info, call); f != nil && depth < inlineDepth {
+				if h := s.P.ByObj[f]; h != nil && helpers[h] && h.Decl.Body != nil {
+					evs = append(evs, ev{call.Pos(), serializerSeqDepth(s, h.Decl.Body, depth+1)})
+				}
 			}
 		}
 		return true
 	})
 	sort.Slice(evs, func(i, j int) bool { return evs[i].pos < evs[j].pos })
 	for _, e := range evs {
-		out = append(out, e.w)
+		out = append(out, e.ws...)
 	}
 	return out
 }
@@ -253,7 +290,7 @@ func ruleWALRecordLayoutAgreement(c *Ctx) {
 	n := c.decodeWidthsAgree(rule, par)
 	c.Floor(rule, par.Name, "decode sites with constant slice width", n, 5)
 	// data shapes
-	if tb, fb := c.S(rule, "(*utils/io.DataShape).toBytes"), c.S(rule, "utils/io.dsFromBytes"); tb != nil && fb != nil {
+	cursorOf := func(fb *Scope) types.Object {
 		var cur types.Object
 		fb.walk(func(n ast.Node) bool {
 			if inc, ok := n.(*ast.IncDecStmt); ok && cur == nil {
@@ -261,23 +298,45 @@ func ruleWALRecordLayoutAgreement(c *Ctx) {
 			}
 			return true
 		})
-
-		a, b := serializerSeq(tb, tb.Body).norm(), parserSeq(fb, fb.Body, cur).norm()
-		c.Check(a.String() == b.String() && len(a) == 3, rule, fb.Name, "datashape-field-widths", c.P.Pos(fb.Body.Pos()), "DataShape.toBytes emits "+a.String()+"; dsFromBytes consumes "+b.String())
-		c.decodeWidthsAgree(rule, fb)
+		return cur
 	}
-	if tb, fb := c.S(rule, "utils/io.DSVToBytes"), c.S(rule, "utils/io.DSVFromBytes"); tb != nil && fb != nil {
-		var cur types.Object
-		fb.walk(func(n ast.Node) bool {
-			if inc, ok := n.(*ast.IncDecStmt); ok && cur == nil {
-				cur = identObj(fb.Info, inc.X)
+	tbShape := c.S(rule, "(*utils/io.DataShape).toBytes")
+	tbDSV, fbDSV := c.S(rule, "utils/io.DSVToBytes"), c.S(rule, "utils/io.DSVFromBytes")
+	if c.P.Funcs["utils/io.dsFromBytes"] != nil {
+		if fb := c.S(rule, "utils/io.dsFromBytes"); tbShape != nil && fb != nil {
+			a, b := serializerSeq(tbShape, tbShape.Body).norm(), parserSeq(fb, fb.Body, cursorOf(fb)).norm()
+			c.Check(a.String() == b.String() && len(a) == 3, rule, fb.Name, "datashape-field-widths", c.P.Pos(fb.Body.Pos()), "DataShape.toBytes emits "+a.String()+"; dsFromBytes consumes "+b.String())
+			c.decodeWidthsAgree(rule, fb)
+		}
+		if tbDSV != nil && fbDSV != nil {
+			a, b := serializerSeq(tbDSV, tbDSV.Body).norm(), parserSeq(fbDSV, fbDSV.Body, cursorOf(fbDSV)).norm()
+			c.Check(a.String() == b.String() && len(a) == 2, rule, fbDSV.Name, "dsv-field-widths", c.P.Pos(fbDSV.Body.Pos()), "DSVToBytes emits "+a.String()+"; DSVFromBytes consumes "+b.String())
+			c.decodeWidthsAgree(rule, fbDSV)
+		}
+	} else if tbShape != nil && tbDSV != nil && fbDSV != nil {
+		// the per-shape decoder was inlined into DSVFromBytes: its loop body is the shape decoder,
+		// the statements before the loop are the vector header
+		var loop *loopInfo
+		var before []ast.Stmt
+		for _, st := range fbDSV.Body.List {
+			if li := asLoop(fbDSV.Info, st); li != nil && loop == nil {
+				loop = li
+				break
 			}
-			return true
-		})
-
-		a, b := serializerSeq(tb, tb.Body).norm(), parserSeq(fb, fb.Body, cur).norm()
-		c.Check(a.String() == b.String() && len(a) == 2, rule, fb.Name, "dsv-field-widths", c.P.Pos(fb.Body.Pos()), "DSVToBytes emits "+a.String()+"; DSVFromBytes consumes "+b.String())
-		c.decodeWidthsAgree(rule, fb)
+			before = append(before, st)
+		}
+		if loop == nil {
+			c.Undecided(rule, fbDSV.Name, "datashape-field-widths", "utils/io.dsFromBytes does not exist and DSVFromBytes has no per-shape loop: the shape decoder was not found")
+		} else {
+			cur := cursorOf(fbDSV)
+			a, b := serializerSeq(tbShape, tbShape.Body).norm(), parserSeq(fbDSV, loop.Body, cur).norm()
+			okW := a.String() == b.String() || (len(b) < len(a) && a.sameTotals(b)) // one combined cursor increment per shape
+			c.Check(okW && len(a) == 3, rule, fbDSV.Name, "datashape-field-widths", c.P.Pos(loop.Node.Pos()), "DataShape.toBytes emits "+a.String()+"; the per-shape loop of DSVFromBytes consumes "+b.String())
+			ha := serializerSeq(tbDSV, tbDSV.Body).norm()
+			hb := append(parserSeq(fbDSV, &ast.BlockStmt{List: before}, cur), 0).norm()
+			c.Check(ha.String() == hb.String() && len(ha) == 2, rule, fbDSV.Name, "dsv-field-widths", c.P.Pos(fbDSV.Body.Pos()), "DSVToBytes emits "+ha.String()+"; DSVFromBytes consumes "+hb.String()+" (header, then the shapes)")
+			c.decodeWidthsAgree(rule, fbDSV)
+		}
 	}
 	// fixed-size records: transaction info and status
 	recordBytes := func(s *Scope) int64 {
